@@ -835,6 +835,11 @@ peg::parser! {
             // Finally, match unquoted literal text.
             unquoted_literal_text(<stop_condition()>, in_command)
 
+        // N.B. Memoized: "$((" is tried as an arithmetic expansion and then as a command
+        // substitution, "${" inside either of them again, and so on; without memoization an
+        // unterminated nest of expansions is re-parsed from every alternative at every level
+        // (exponential in the nesting depth).
+        #[cache]
         rule dollar_sign_word_piece() -> WordPiece =
             arithmetic_expansion() /
             legacy_arithmetic_expansion() /
@@ -898,12 +903,14 @@ peg::parser! {
 
         rule is_true(value: bool) = &[_] {? if value { Ok(()) } else { Err("not true") } }
 
+        #[cache]
         rule extglob_pattern() =
             ("@" / "!" / "?" / "+" / "*") "(" extglob_body_piece()* ")" {}
 
         rule extglob_body_piece() =
             word_piece(<[')']>, true /*in_command*/) {}
 
+        #[cache]
         rule subshell_command() =
             "(" command() ")" {}
 
@@ -979,6 +986,7 @@ peg::parser! {
 
         // TODO(parser): Deal with fact that there may be a quoted word or escaped closing brace chars.
         // TODO(parser): Improve on how we handle a '$' not followed by a valid variable name or parameter.
+        #[cache]
         rule parameter_expansion() -> WordPiece =
             "${" e:parameter_expression() "}" {
                 WordPiece::ParameterExpansion(e)
@@ -1128,6 +1136,7 @@ peg::parser! {
         rule variable_name() -> &'input str =
             $(!['0'..='9'] ['_' | '0'..='9' | 'a'..='z' | 'A'..='Z']+)
 
+        #[cache]
         pub(crate) rule command_substitution() -> WordPiece =
             "$(" c:command() ")" { WordPiece::CommandSubstitution(c.to_owned()) } /
             "`" c:backquoted_command() "`" { WordPiece::BackquotedCommandSubstitution(c) }
@@ -1148,6 +1157,7 @@ peg::parser! {
             "\\\\" { "\\\\" } /
             s:$([^'`']) { s }
 
+        #[cache]
         rule arithmetic_expansion() -> WordPiece =
             "$((" e:$(arithmetic_word(<"))">)) "))" { WordPiece::ArithmeticExpression(ast::UnexpandedArithmeticExpr { value: e.to_owned() } ) }
 
